@@ -69,7 +69,8 @@ impl M {
         if !z(m.suite).verify(&m.key.pk, &s.sig, oh(&m.header), Some(&m.msgs(&s.vec))).is_ok() { bad.push("current signature verifies for the current vector"); }
         let n = m.values.len();
         for code in 0..n.pow(m.l as u32) { let w: Vec<u8> = (0..m.l).map(|i| ((code / n.pow(i as u32)) % n) as u8).collect(); if w != s.vec && z(m.suite).verify(&m.key.pk, &s.sig, oh(&m.header), Some(&m.msgs(&w))).is_ok() { bad.push("current signature verifies for no other vector over V^L"); break; } }
-        if ![m.l, m.l + 1, 1usize << 32, usize::MAX].iter().all(|&i| matches!(z(m.suite).update_signature(&m.key.sk, &s.sig, &m.values[0], &m.values[1], i, m.l), O::Err(_))) { bad.push("out-of-range positions are refused"); }
+        // out-of-range positions are refused for every (old, new) pair, including old == new (an "unchanged" shortcut must not come first)
+        if ![m.l, m.l + 1, 1usize << 32, usize::MAX].iter().all(|&i| (0..m.values.len()).all(|a| (0..m.values.len()).all(|b| matches!(z(m.suite).update_signature(&m.key.sk, &s.sig, &m.values[a], &m.values[b], i, m.l), O::Err(_))))) { bad.push("out-of-range positions are refused"); }
         'outer: for i in 0..m.l { for wrong in 0..m.values.len() as u8 { if wrong == s.vec[i] { continue; } for newv in 0..m.values.len() as u8 {
             if let O::Ok(sig) = z(m.suite).update_signature(&m.key.sk, &s.sig, &m.values[wrong as usize], &m.values[newv as usize], i, m.l) {
                 let mut w = s.vec.clone(); w[i] = newv;
